@@ -21,7 +21,7 @@ RULE = (
     "FINISHED_EVALUATION events built from real result objects. Event alphabet: weighted objective {NaN,0,1,1(tie),2} x "
     "feasibility {feasible, violation just below tol, bound / linear / non-linear violation just above tol} x kind "
     "{FunctionResults, functions=None, GradientResults} x source {tracked, other}, plus events carrying a pair of results; "
-    "x tolerance {1e-10, None, 0.5} x transforms {none, scaling, sign-flip (maximization)} x what {best,last}. State = "
+    "x tolerance {1e-10, None, 0.5, 0.0} x transforms {none, scaling, sign-flip (maximization)} x what {best,last}. State = "
     "(objective of the retained result, reference best, reference last): fully observable, merged; BFS to closure, plus a "
     "no-merge run over all sequences up to a depth. Conformance: every model trace up to a depth is replayed through "
     "BasicOptimizer (scripted SciPy driver, evaluator producing the scripted objective/feasibility sequence) and "
@@ -35,8 +35,8 @@ ASSUMPTIONS = [
     "ties are accepted by value",
 ]
 BOUNDS = {
-    "quick": "closure for 18 configurations; no-merge depth 3 over a 16-event alphabet; BasicOptimizer conformance for all traces of length <=3",
-    "thorough": "closure for 18 configurations; no-merge depth 4; BasicOptimizer conformance for all traces of length <=4",
+    "quick": "closure for 24 configurations; no-merge depth 3 over a 16-event alphabet; BasicOptimizer conformance for all traces of length <=3",
+    "thorough": "closure for 24 configurations; no-merge depth 4; BasicOptimizer conformance for all traces of length <=4",
 }
 
 OBJECTIVES = ["nan", "0", "1", "1b", "2"]
@@ -76,7 +76,10 @@ def make_result(sym: tuple[str, str, str, str], tol: float | None, transforms: A
     else:
         value = obj_value(o)
         base = 1.0 if tol is None else tol
-        if scaling:
+        if tol == 0.0:
+            # exact-zero tolerance: any positive violation, however small, is infeasible
+            amount = {"ok": 0.0, "below": 0.0}.get(f, 1000.0 if scaling else 1e-13)
+        elif scaling:
             amount = {"ok": 0.0, "below": 0.0}.get(f, 1000.0 * max(base, 1.0))
         else:
             amount = {"ok": 0.0, "below": 0.5 * base}.get(f, 2.0 * base)
@@ -366,7 +369,7 @@ def run_basic(trace: list[tuple[str, str]], tname: str) -> Judgement:
 def shards(tier: str, seed: int) -> list[dict[str, Any]]:
     out = []
     for what in ("best", "last"):
-        for tol in (1e-10, None, 0.5):
+        for tol in (1e-10, None, 0.5, 0.0):
             for tname in ("none", "scaling", "maximize"):
                 out.append({"kind": "closure", "what": what, "tol": tol, "transforms": tname})
     depth = 3 if tier == "quick" else 4
